@@ -23,7 +23,8 @@ RULE = ("doctests of 1..8 statements from {emit (prints), an expression printing
         "alone, after other output, or together with a returned value}; after a statement a want is placed with p=0.55 in one of the forms "
         "A/B/C that applies; statements without wants are split into several parts by prose/blank lines so the "
         "accumulation buffer holds 1..4 entries; in half of the cases exactly one want is corrupted (replace, append, "
-        "prepend, drop-last) and the remaining statements follow it.  Plus doctests in which nothing can run (comment "
+        "prepend, drop-last, stale = the output already consumed by the previous want prepended; the previous want may be one "
+        "switched off by an inline +IGNORE_WANT) and the remaining statements follow it.  Plus doctests in which nothing can run (comment "
         "only, all under +SKIP, google block without prompts).  Non-trivial = at least one want placed; distinct by "
         "docstring hash")
 ASSUMPTIONS = [
@@ -35,7 +36,7 @@ ASSUMPTIONS = [
 ]
 NSHARDS = {'quick': 16, 'thorough': 16}
 FORMS = 'ABC'
-CORRUPTIONS = ['replace', 'append', 'prepend', 'drop']
+CORRUPTIONS = ['replace', 'append', 'prepend', 'drop', 'stale', 'stale']
 
 
 def required_cells(tier):
@@ -45,9 +46,11 @@ def required_cells(tier):
         for c in CORRUPTIONS:
             if f == 'C' and c == 'drop':
                 continue        # a repr is one line
+            if c == 'stale' and f != 'A':
+                continue
             cells.append('corrupt:%s:%s' % (f, c))
     cells += ['depth:1', 'depth:2', 'depth:3', 'nothing-ran:comment-only', 'nothing-ran:skip-block',
-              'nothing-ran:google-no-prompts', 'no-want-at-all', 'blankline-want:A', 'blankline-want:B']
+              'nothing-ran:google-no-prompts', 'no-want-at-all', 'blankline-want:A', 'blankline-want:B', 'ok:I', 'stale-after-ignored-want']
     return cells
 
 
@@ -123,6 +126,8 @@ def plan_wants(rng, S, ref, corrupt):
     corrupt_at = rng.randrange(len(S)) if corrupt else None
     seps = {}
     blank_wants = []
+    stale = []              # want lines spelling the output that the previous want has already consumed
+    prev_ignored = False    # the previous want was switched off by an inline +IGNORE_WANT
     for idx, st in enumerate(S):
         out = ref.outs[idx]
         acc += out
@@ -147,7 +152,13 @@ def plan_wants(rng, S, ref, corrupt):
                 # dropping a final <BLANKLINE> changes nothing (trailing whitespace is not compared)
                 if c == 'drop' and (len(wl) < 2 or wl[-1] == '<BLANKLINE>'):
                     c = 'replace'
-                if c == 'replace':
+                if c == 'stale' and not any(w != '<BLANKLINE>' for w in stale):
+                    c = 'replace'
+                if c == 'stale':
+                    # the output printed before the PREVIOUS want, then the correct text: that output is no longer
+                    # "since the previous want", so this is not a trailing portion of what may be matched
+                    wl = stale + wl
+                elif c == 'replace':
                     wl = ['BOGUS%d' % idx]
                 elif c == 'append':
                     wl = wl + ['BOGUS%d' % idx]
@@ -155,12 +166,21 @@ def plan_wants(rng, S, ref, corrupt):
                     wl = ['BOGUS%d' % idx] + wl
                 elif c == 'drop':
                     wl = wl[:-1]
-                expect_fail = {'index': idx, 'want': '\n'.join(wl), 'form': tag, 'corruption': c}
+                expect_fail = {'index': idx, 'want': '\n'.join(wl), 'form': tag, 'corruption': c,
+                               'after_ignored_want': prev_ignored}
                 wants[idx] = wl
                 placed.append((idx, tag, depth))
                 break
+            prev_ignored = False
+            if len(st.lines) == 1 and rng.random() < 0.15:
+                # the want is switched off for this statement only; it still is "the previous want" for the next one
+                st.lines[0] += '  # xdoctest: +IGNORE_WANT'
+                wl = ['IGNORED%d whatever' % idx]
+                tag = 'I'
+                prev_ignored = True
             wants[idx] = wl
             placed.append((idx, tag, depth if tag == 'A' else 1))
+            stale = out_to_want(acc)
             acc = ''
             depth = 1
         # separator after this statement (creates a new part -> deeper accumulation buffer)
@@ -288,6 +308,8 @@ def check_case(ctx, index, case_seed):
             return
         ctx.event('compile_prefix_checks')
         ctx.cell('corrupt:%s:%s' % (tag, cor))
+        if cor == 'stale' and expect_fail.get('after_ignored_want'):
+            ctx.cell('stale-after-ignored-want')
         if tag == 'A':
             ctx.cell('depth:%d' % min(placed[-1][2], 4))
     if ctx.shard == 0:
